@@ -411,7 +411,7 @@ SITES = [
          why="source part = word/document.xml"),
     dict(rel=XLSX, fn="_extract_images_from_zip", sinks=("read_bytes",), keys=("target",), base=("dirname", "@items-loop-value"), label="drawing-image",
          why="source part = the drawing part `drawing_path`"),
-    dict(rel=EPUB, fn="_extract_images", sinks=("read_bytes",), keys=("href",), base=("field", "ctx", "_opf_dir"), label="manifest-image",
+    dict(rel=EPUB, fn="_extract_images", sinks=("read_bytes",), keys=("href",), base=("field", "ctx", "_opf_dir"), decode=True, label="manifest-image",
          why="source part = the OPF package document", makers={"ctx": ("obj", "_EpubContext", ("_opf_dir",))}),
     dict(rel=ODT, fn="_extract_images_from_context", sinks=("read_bytes",), keys=HREF_KEYS, base=("const", ""), label="frame-image",
          why="ODF: package-relative IRI resolved against the package root"),
@@ -667,6 +667,8 @@ def run_site(site, repo, reg=None, uni=None):
             if "spec" in site:
                 return VStr(site["spec"](c))
             t = c.args["__target"].t
+            if site.get("decode"):
+                t = SP.PCT(t)         # IRI reference: percent-decoded before it is resolved
             if b[0] == "const":
                 base = z3.StringVal(b[1])
             elif b[0] == "dirname":
